@@ -307,6 +307,59 @@ class Gen:
             op = r.choice(["add", "sub", "mul"])
             self.emit("cmpa %s %d %d" % (op, t, self.scalar()), "compound-adouble-" + op, d, t)
 
+    def s_overlap(self):
+        """target and operand are different views of one root whose address ranges touch, overlap in one element, overlap
+        widely or are interleaved — the cases that decide Array::is_aliased_() and the temporary copy of the right-hand side"""
+        r = self.r
+        if r.random() < 0.25:
+            # rank 2: a square root against its own transpose / reversed view / shifted block
+            m = r.choice([2, 3, 4])
+            root = self.root([m, m], True)
+            k = r.choice(["T", "rev", "block"])
+            if k == "T":
+                t = root; a = self.derive(root, "vT %(h)d %(src)d", [m, m], "T"); d = [m, m]
+            elif k == "rev":
+                t = root; a = self.derive(root, "vw %%(h)d %%(src)d s%d:0:-1 s%d:0:-1" % (m - 1, m - 1), [m, m], "reversed"); d = [m, m]
+            else:
+                n = m - 1
+                t = self.derive(root, "vw %%(h)d %%(src)d s1:%d:1 s1:%d:1" % (m - 1, m - 1), [n, n], "stride")
+                a = self.derive(root, "vw %%(h)d %%(src)d s0:%d:1 s0:%d:1" % (m - 2, m - 2), [n, n], "stride")
+                if r.random() < 0.5:
+                    t, a = a, t
+                d = [n, n]
+        else:
+            n = r.choice([1, 2, 2, 3, 3, 4]); st = r.choice([1, 1, 1, 2]); sa = r.choice([1, 1, -1, 2])
+            span_t = (n - 1) * st; span_a = (n - 1) * abs(sa)
+            lo_t = r.randint(0, 4)
+            # lowest address of the operand relative to the target's range
+            rel = r.choice(["end_touch", "end_touch", "end_gap", "begin_touch", "begin_touch", "begin_gap", "shift1", "shift1", "same", "inter"])
+            lo_a = {"end_touch": lo_t - span_a, "end_gap": lo_t - span_a - 1, "begin_touch": lo_t + span_t, "begin_gap": lo_t + span_t + 1,
+                    "shift1": lo_t + r.choice([-1, 1]), "same": lo_t, "inter": lo_t + 1}[rel]
+            if lo_a < 0:
+                lo_t -= lo_a; lo_a = 0
+            N = max(lo_t + span_t, lo_a + span_a) + 1 + r.randint(0, 2)
+            root = self.root([N], True, "distinct")
+            t = self.derive(root, "vw %%(h)d %%(src)d s%d:%d:%d" % (lo_t, lo_t + span_t, st), [n], "stride")
+            if sa > 0:
+                a = self.derive(root, "vw %%(h)d %%(src)d s%d:%d:%d" % (lo_a, lo_a + span_a, sa), [n], "stride")
+            else:
+                a = self.derive(root, "vw %%(h)d %%(src)d s%d:%d:%d" % (lo_a + span_a, lo_a, sa), [n], "reversed")
+            d = [n]
+        self.targets.add(t)
+        k = r.choice(["copy", "neg", "binsl", "bin", "bin2", "n1"])
+        if k == "copy":
+            self.emit("copy %d %d" % (t, a), "overlap-copy", d, t)
+        elif k == "neg":
+            self.emit("neg %d %d" % (t, a), "overlap-neg", d, t)
+        elif k == "binsl":
+            self.emit("binsl mul %d %d %d" % (t, r.choice([-3, 2, 3]), a), "overlap-scalar-mul", d, t)
+        elif k == "bin":
+            self.emit("bin %s %d %d %d" % (r.choice(["add", "sub", "mul"]), t, a, self.operand(d, reuse=0)), "overlap-bin", d, t)
+        elif k == "bin2":
+            self.emit("bin %s %d %d %d" % (r.choice(["add", "mul"]), t, self.operand(d, reuse=0), a), "overlap-bin", d, t)
+        else:
+            self.emit("n1 %d %d %d %d" % (t, a, self.operand(d, reuse=0), a), "overlap-nested", d, t)
+
     def s_where(self):
         d = self.rankdims((1, 1, 2, 2)); t = self.target(d); r = self.r
         troot = self.info[t]["root"]
@@ -522,7 +575,7 @@ class Gen:
 STMT_TABLE = {
     "default": [("copy", 4), ("neg", 2), ("bin", 9), ("bins", 5), ("bina", 4), ("nested", 6), ("wrap", 6), ("bcast", 5),
                 ("passive", 4), ("compound", 8), ("where", 8), ("indexed", 9), ("reduce", 8), ("rdim", 7), ("products", 5),
-                ("element", 5), ("float", 2), ("fixed", 5)],
+                ("element", 5), ("float", 2), ("fixed", 5), ("overlap", 9)],
     "fixed-indexed": [("indexed", 10), ("fixed", 8), ("where", 3), ("compound", 2), ("bin", 2), ("rdim", 2), ("reduce", 2)],
 }
 
